@@ -146,8 +146,12 @@ func (fs *readOnlyFsInternal) ReadDir(ctx context.Context, op *fuseops.ReadDirOp
 	children, found := fs.readDirMap[iNode]
 
 	if !found {
-		err = jfuse.ENOENT
-		return
+		// a directory without any child (the root of an empty bundle) lists nothing
+		p, isEntry := fs.fsEntryStore.Get(formKey(iNode))
+		if !isEntry || !asFsEntry(p).isDir() {
+			err = jfuse.ENOENT
+			return
+		}
 	}
 
 	if offset > len(children) {
